@@ -24,6 +24,9 @@ def gen(ctx):
     yield dict(kind="blk1", hist=[[7]], b=1, T=3, rule="probe:5", dtype="int32")
     yield dict(kind="blk2", hist=[[[1, 2, 3, 4], [5, 6, 7, 8]]], b=[2, 2], T=3, rule="rot", dtype="int32")
     yield dict(kind="blk2", hist=[[[1, 2, 3], [4, 5, 6]]], b=[2, 3], T=3, rule="rev", dtype="int32")
+    for T in (34, 70, 131):
+        yield dict(kind="blk1", hist=[[rng.randrange(3) for _ in range(6)]], b=rng.choice([2, 3]), T=T, rule=rng.choice(["rot", "sumrot", "counter:3"]), dtype="int32")
+        yield dict(kind="blk2", hist=[[[rng.randrange(3) for _ in range(4)] for _ in range(2)]], b=[rng.choice([1, 2]), 2], T=T, rule=rng.choice(["rot", "rev"]), dtype="int32")
     for (N, b) in [(70000, 2), (66000, 3)]:
         yield dict(kind="blk1", hist=[[(i * 7 + i // 5) % 4 for i in range(N)]], b=b, T=3, rule="sumrot", dtype="int32")
     yield dict(kind="blk2", hist=[[[(3 * i + j) % 4 for j in range(260)] for i in range(258)]], b=[2, 2], T=3, rule="rot", dtype="int32")
